@@ -122,6 +122,58 @@ func c15Check(c C15Case, rec *evid.Rec) error {
 		}
 		rec.Class("walks")
 	}
+	// 2b. the link budget on the path-directed functions: for visited paths that cross links, Get and Focus
+	// with a budget of M loads either do exactly what they do without a budget (M suffices) or stop with a
+	// budget error after exactly M loads
+	doneGet := 0
+	for i := len(U) - 1; i >= 0 && doneGet < 6; i-- {
+		path := base.Paths[i]
+		if path.Len() == 0 {
+			continue
+		}
+		*real.Loads = (*real.Loads)[:0]
+		full, ferr := traversal.Progress{Cfg: cfg()}.Get(real.Root, path)
+		Lp := len(*real.Loads)
+		if ferr != nil || Lp == 0 {
+			continue
+		}
+		doneGet++
+		for M := 0; M <= Lp+1; M++ {
+			for _, fn := range []string{"Get", "Focus"} {
+				*real.Loads = (*real.Loads)[:0]
+				prog := traversal.Progress{Cfg: cfg(), Budget: &traversal.Budget{NodeBudget: bigBudget, LinkBudget: int64(M)}}
+				var got datamodel.Node
+				var gerr error
+				gerr = evid.Guard(fn, func() error {
+					var e error
+					if fn == "Get" {
+						got, e = prog.Get(real.Root, path)
+					} else {
+						e = prog.Focus(real.Root, path, func(_ traversal.Progress, n datamodel.Node) error { got = n; return nil })
+					}
+					return e
+				})
+				loads := len(*real.Loads)
+				if M >= Lp {
+					if gerr != nil || loads != Lp {
+						return fmt.Errorf("%s of %q crosses %d links; with a link budget of %d it made %d loads and returned %v", fn, path, Lp, M, loads, gerr)
+					}
+					if eq, _ := deepEqualGuarded(got, full); !eq {
+						return fmt.Errorf("%s of %q with a sufficient link budget %d returns another node", fn, path, M)
+					}
+				} else {
+					if gerr == nil || !budgetErr(gerr) {
+						return fmt.Errorf("%s of %q crosses %d links; with a link budget of %d: want ErrBudgetExceeded, got %v (%d loads)", fn, path, Lp, M, gerr, loads)
+					}
+					if loads != M {
+						return fmt.Errorf("%s of %q with a link budget of %d made %d loads", fn, path, M, loads)
+					}
+					binding["get-link-budget"] = true
+				}
+				rec.Class("gets")
+			}
+		}
+	}
 	// 3. start-at path
 	seenPath := map[string]bool{}
 	for i := range U {
@@ -246,7 +298,7 @@ func c15Check(c C15Case, rec *evid.Rec) error {
 
 var c15Part = evid.Part[C15Case]{
 	Prop: "C15", Name: "controls", Quick: 700, Thorough: 70000,
-	Rule: "(graph, selector) from the C07 generators; against the unrestricted WalkAdv: node budget N for every N in 0..V+1, link budget M for every M in 0..L+1, StartAtPath for every visited path, LinkVisitOnlyOnce, and a loader returning SkipMe for a drawn set of links — each control alone; non-trivial = at least two controls actually bind (N<V, M<L, start index>0, a repeated link, a skipped link that is loaded); distinct by (graph, selector, skip set); the class 'walks' counts restricted walks executed",
+	Rule: "(graph, selector) from the C07 generators; against the unrestricted WalkAdv: node budget N for every N in 0..V+1, link budget M for every M in 0..L+1 (also on Get and Focus along visited paths that cross links), StartAtPath for every visited path, LinkVisitOnlyOnce, and a loader returning SkipMe for a drawn set of links — each control alone; non-trivial = at least two controls actually bind (N<V, M<L, start index>0, a repeated link, a skipped link that is loaded); distinct by (graph, selector, skip set); the class 'walks' counts restricted walks executed",
 	Gen: func(t *rapid.T) C15Case {
 		c := genGraphSel(t, rapid.IntRange(1, 4).Draw(t, "seldepth"))
 		if rapid.IntRange(0, 2).Draw(t, "broad") == 0 {
